@@ -141,6 +141,14 @@ def run(chk):
     for _ in range(N):
         t, x = gen_series(rng)
         o = gen_opts(rng, t)
+        if o["resample"] is not None and o["resample"][0] == "step":
+            # the number of grid points is round((t1-t0)/d): an exact tie (x.5) in rational arithmetic may fall on either side
+            # in floating point when d is not exactly representable — keep ties out of the exact correspondence
+            tw = [u for u in t if o["twin"] is None or o["twin"][0] <= u <= o["twin"][1]]
+            if len(tw) >= 2:
+                ratio = (tw[-1] - tw[0]) / o["resample"][1]
+                if (2 * ratio).denominator == 1 and (2 * ratio).numerator % 2 == 1:
+                    o["resample"] = ("step", o["resample"][1] * Fraction(9, 8))
         lines.append("pl.get %s | %s | %s" % (opts_line(o), " ".join(rat(v) for v in t), " ".join(rat(v) for v in x)))
         meta.append((t, x, o, rng.choice(["lp", "hp", "bp", "bs"])))
     outs = drv.run(lines)
@@ -222,6 +230,8 @@ def run(chk):
                 pass
         # resample to a step: grid from first to last sample with the spacing closest to the request
         d = (t[-1] - t[0]) / rng.choice([1, 2, 3, 5, 7]) * rng.choice([Fraction(1), Fraction(5, 4), Fraction(3, 4)])
+        if (2 * (t[-1] - t[0]) / d).denominator == 1 and (2 * (t[-1] - t[0]) / d).numerator % 2 == 1:
+            d = d * Fraction(9, 8)     # no exact rounding ties (float division of a non-dyadic step)
         tr, xr = ts.get(resample=float(d))
         k = len(tr) - 1
         ratio = (t[-1] - t[0]) / d
@@ -229,8 +239,10 @@ def run(chk):
                 np.allclose(np.diff(tr), float(t[-1] - t[0]) / k, rtol=1e-12)):
             chk.fail("resampling to a step gives an equidistant grid from the first to the last sample whose spacing is the one closest "
                      "to the request", dict(inp, step=str(d)), "k=%s" % round(ratio), tr.tolist()[:6])
-        lines.append("pl.resample %s | %s | %s" % (rat(d), " ".join(rat(v) for v in t), " ".join(rat(v) for v in x)))
-        meta.append((ts, d, inp))
+        # stand-alone resampling: exact correspondence only for dyadic steps (np.arange's length ceil((b-a)/d) is then exact)
+        d2 = (t[-1] - t[0]) / rng.choice([1, 2, 4, 8]) * rng.choice([Fraction(1), Fraction(5, 4), Fraction(3, 4)])
+        lines.append("pl.resample %s | %s | %s" % (rat(d2), " ".join(rat(v) for v in t), " ".join(rat(v) for v in x)))
+        meta.append((ts, d2, inp))
         # modify == get
         kw = dict(twin=(float(a), float(b)))
         ts2 = TimeSeries("s", tf, xf)
